@@ -548,7 +548,7 @@ pub fn run(cfg: &RunCfg) -> i32 {
     return crate::replay_main::<Case>(cfg, path, check);
   }
   crate::replay_known::<Case>(&mut report, &known, check);
-  let total = cfg.budget(1_000, 8_000);
+  let total = cfg.budget(1_000, 30_000);
   let o = drive(cfg, "front-ends", total, &known, strategy, interpret, check);
   report.absorb("front-ends", o);
   cli::cleanup_work_root();
